@@ -1,7 +1,7 @@
 SPECIFICATION Spec
 CONSTANT Threshold = 2
-CONSTANT NMsgs = 3
-CONSTANT MaxDelta = 1
+CONSTANT NMsgs = 6
+CONSTANT MaxDelta = 2
 CONSTANT Fwd = {"f1","f2"}
 INVARIANT ThresholdHolds
 INVARIANT CountSane
